@@ -291,6 +291,9 @@ class CallMixin:
                 return h(st, args, kwargs, node)
             if o is _object_init:
                 return [(st, PyC(None))]
+            import itertools as _it
+            if getattr(o, "__self__", None) is _it.chain and getattr(o, "__name__", "") == "from_iterable" and len(args) == 1 and not kwargs:
+                return self.b_chain_from_iterable(st, args, kwargs, node)
             import inspect as _insp
             if (o is _insp.signature or type(getattr(o, "__self__", None)).__name__ in ("mappingproxy", "Signature", "Parameter", "odict_values", "dict_values")) \
                     and all(isinstance(a, PyC) for a in args) and not kwargs:
